@@ -186,6 +186,30 @@ def bigext_job(j):
     os.unlink(p)
     return (cid, 'bad' if bad else 'ok', bad, 2)
 
+def csumspread_job(j):
+    """(i) checksum-only damage of several inodes, never more than half of the inodes of one inode-table block (one per block in k consecutive blocks):
+    e2fsck -fy must repair the checksums and keep every file"""
+    cid, name, inos = j
+    from xck.image import Image
+    d = bytearray(fsweep.base_data(name)); im = Image(bytes(d))
+    for ino in inos:
+        loc = im.inode_loc(ino); d[loc + 0x7C] ^= 0x01            # i_checksum_lo (osd2)
+    p = fsweep.worker_path('c5i')
+    with open(p, 'wb') as f: f.write(d)
+    try: before = tree_of(fsweep.base_data(name))
+    except Exception as e: return (cid, 'skip', str(e), 0)
+    rc, out = run([E2FSCK, '-fy', p], timeout=60)
+    bad = []
+    if rc not in (0, 1): bad.append(('-fy', 'exit status %s' % rc, out[-300:]))
+    else:
+        after = open(p, 'rb').read()
+        try: dd = xtree.diff(before, tree_of(after))
+        except Exception as e: dd = ['result not readable: %r' % e]
+        if dd: bad.append(('-fy', 'files changed', dd[:5]))
+        rc2, out2 = run([E2FSCK, '-fn', p], timeout=30)
+        if rc2 != 0: bad.append(('-fy', 'not consistent after repair', [rc2, out2[-300:]]))
+    return (cid, 'bad' if bad else 'ok', bad, 2)
+
 def djob(j):
     mid, base, parts = j
     p = fsweep.worker_path('c5d')
@@ -233,7 +257,7 @@ def main(tier, only=None):
     ck = Check('C05', tier, 'model_checking')
     E2FSCK = tool('e2fsck'); DEBUGFS = tool('debugfs'); MKE2FS = tool('mke2fs'); fsweep.init_scratch()
     quick = tier == 'quick'
-    parts = only or ['a', 'b', 'c', 'd', 'e', 'f', 'g', 'h']
+    parts = only or ['a', 'b', 'c', 'd', 'e', 'f', 'g', 'h', 'i']
     jobs = []
     if 'a' in parts:
         for b in fsweep.SWEEP_BASES + ['needsrec']:
@@ -276,9 +300,31 @@ def main(tier, only=None):
         for feat in (('metadata_csum',) if quick else ('metadata_csum', '^metadata_csum', 'bigalloc')):
             for m in MODES:
                 hjobs.append(('h/%s/long-extents :: %s' % (feat, ' '.join(m)), feat, m))
+    ijobs = []
+    if 'i' in parts:
+        from vlib import geom
+        from xck.image import Image as _Im
+        for name in geom.build_geom(quick):
+            if 'u_itb' in name: continue          # needs metadata_csum
+            im_ = _Im(fsweep.base_data(name)); ipb = im_.bs // im_.inode_size
+            if im_.itb_per_group < 3: continue
+            for g in (0, 1, 2):
+                for b0 in (0, 1, 2, 5):
+                    for k in range(2, 9):
+                        if b0 + k > im_.itb_per_group: continue
+                        for pos in (0, ipb - 1) if quick else range(ipb):
+                            inos = [g * im_.ipg + (b0 + t) * ipb + pos + 1 for t in range(k)]
+                            if min(inos) < im_.first_ino: continue
+                            ijobs.append(('i/%s/g%d/blk%d+%d/pos%d' % (name, g, b0, k, pos), name, inos))
+    ires = pmap(csumspread_job, ijobs, chunksize=4) if ijobs else []
     hres = pmap(bigext_job, hjobs, chunksize=1) if hjobs else []
     res = pmap(job, jobs, chunksize=2)
     runs = 0; skipped = 0
+    for (cid, st, bad, n), j in zip(ires, ijobs):
+        runs += n
+        if st == 'skip': skipped += 1; continue
+        for mode, what, det in (bad or []):
+            ck.violation('%s' % cid, {'case': cid, 'base': j[1], 'damaged_inode_checksums': j[2], 'mode': mode, 'what': what, 'detail': det})
     for (cid, st, bad, n), j in zip(hres, hjobs):
         runs += n
         if st == 'skip': skipped += 1; log('C05 (h): %s skipped: %s' % (cid, bad)); continue
@@ -312,7 +358,7 @@ def main(tier, only=None):
         ck.part('d_summary_only_damage', mutants=ndj)
     ck.add(evaluations=runs, distinct_nontrivial=len(jobs) + ndj, states=len(jobs) + ndj, transitions=runs, traces_validated_against_impl=runs,
            rule='(a) every corpus image x 5 repair modes; (b) test directory holding the first n of a fixed name sequence (hard links), every n in 0..400, 2-3 sequences (short, 252-byte, mixed lengths), '
-                'on linear/indexed/csum/inline/bigalloc bases x modes, plus names differing only in case in ordinary directories of a casefold-feature filesystem; (c) a file of every block count 0..300 x {bmap2extent, -D}; (h) a 300 MiB filesystem whose files have written and preallocated runs of 32766..65535 blocks (extent length limits 32768 / 32767) with punched gaps x 5 repair modes, second run clean; (g) files with one attribute of every value length 0..130 and capacity-110..capacity of the external block (with and without a second attribute), i.e. every fill level of the in-inode area and of the block; (e) a file whose first n blocks are every pattern over {hole, written, unwritten(preallocated)} (quick n=4, thorough n=6; free space pre-filled with stale bytes) x modes; (f) a directory of symlinks of every target length 1..120, each with a small or a 200-byte extended attribute, on bases with 128- and 256-byte inodes x modes; (d) every single-field mutant of bitmap bits, counts, flags and checksum fields '
+                'on linear/indexed/csum/inline/bigalloc bases x modes, plus names differing only in case in ordinary directories of a casefold-feature filesystem; (c) a file of every block count 0..300 x {bmap2extent, -D}; (i) on the geometry family (inode tables of 3..18 blocks, every inode in use): the checksum of one inode per inode-table block damaged in 2..8 consecutive blocks (never more than half of a block), e2fsck -fy must keep every file and leave a clean filesystem; (h) a 300 MiB filesystem whose files have written and preallocated runs of 32766..65535 blocks (extent length limits 32768 / 32767) with punched gaps x 5 repair modes, second run clean; (g) files with one attribute of every value length 0..130 and capacity-110..capacity of the external block (with and without a second attribute), i.e. every fill level of the in-inode area and of the block; (e) a file whose first n blocks are every pattern over {hole, written, unwritten(preallocated)} (quick n=4, thorough n=6; free space pre-filled with stale bytes) x modes; (f) a directory of symlinks of every target length 1..120, each with a small or a 200-byte extended attribute, on bases with 128- and 256-byte inodes x modes; (d) every single-field mutant of bitmap bits, counts, flags and checksum fields '
                 'x e2fsck -fy.  Oracle: exit in {0,1} and xck.tree (path,type,bytes,size,mode,owner,nlink,target,xattrs) identical before/after; (d) also second run clean',
            samples=[j[1] for j in jobs[:2]] + [j[1] for j in jobs[-2:]])
     ck.assumptions += ['xck.tree is the observer of "files" (independent reader); casefold/encrypted directories not in scope']
